@@ -14,6 +14,7 @@ import os, sys, json, time, atexit, signal, select, subprocess, ipaddress, itert
 import common as C
 
 ID = 'C19'
+CASE_TIMEOUT = 300   # per-case wall-clock limit of the driver's hang detection (each case is a live start/stop of a real proxy (worker subprocesses); slow under load, never a loop in the code under test)
 COQ_TARGETS = ['theories/Props/C19.vo', 'theories/Boot/ListenCases.vo']
 IMPORTS = 'From PM Require Import Lib.Bytes Lib.PyStr Boot.Listen Boot.ListenCases.'
 CASE_TYPE = 'case'
